@@ -560,9 +560,18 @@ fn main() {
             let ne = rng.range(5, 10) as u32;
             // real clock: `end_stream` / `flush` measure their timeouts with std's `Instant`
             let rt = if multi { runtime(true) } else { tokio::runtime::Builder::new_current_thread().enable_all().build().unwrap() };
-            let logs = rt.block_on(async { if ogre { mremove_ogre_atomic(nl, ne).await } else { mremove_arc_atomic(nl, ne).await } });
-            drop(rt);
             let kind = if ogre { "ogre_atomic" } else { "arc_atomic" };
+            let logs = rt.block_on(async { tokio::time::timeout(Duration::from_secs(8), async { if ogre { mremove_ogre_atomic(nl, ne).await } else { mremove_arc_atomic(nl, ne).await } }).await });
+            // (a runtime whose tasks wait for ever cannot be dropped normally)
+            rt.shutdown_background();
+            let logs = match logs { Ok(l) => l, Err(_) => {
+                let d = format!("Multi {kind}, {nl} sequential listeners, listener #0 removed earlier by a bounded flush_and_cancel_executor: the scenario ({ne} events of at most 10 ms each, then close()) did not finish within 8 s -- close() with an unbounded timeout never returned");
+                let header = vec![format!("cmd exec sub=mremove runs=1 seedx={seed}"), format!("violation close_never_returned: {d}")];
+                let p = write_replay(&replay_dir, &format!("{pid}-exec-mremove-seed{seed}-close_never_returned"), &header, &[]);
+                rep.violations.push(Violation { run: i, seed, kind: "close_never_returned".into(), detail: d, replay: p });
+                rep.add_run(&[format!("mremove seed {seed} stuck")], true, &format!("mremove/{kind}/l{nl}"), "Stuck");
+                if rep.violations.len() > 3 { break }
+                continue } };
             for (l, trace) in logs.iter().enumerate() {
                 let mut viol: Vec<(String, String)> = vec![];
                 let closed_at = trace.iter().position(|x| x == "call 0 closereturned").unwrap_or(trace.len());
